@@ -16,6 +16,10 @@ MARK = "0x56455249"
 LINE = re.compile(r"^(?:\d+\s+)?([a-z_0-9]+)\((.*)$")
 
 
+# (source, target) pairs bind-mounted inside every traced run's private mount namespace (generated system files)
+BINDS = []
+
+
 class OneShot:
     def __init__(self, run, build, tag):
         self.run = run
@@ -51,7 +55,9 @@ class OneShot:
             "-E", "LD_PRELOAD=" + self.preload, "-E", "VERIF_INI=" + self.run.ini, "-E", "GLIBC_TUNABLES=glibc.malloc.tcache_count=0",
             "-E", "TZ=UTC", "-E", "ASAN_OPTIONS=detect_leaks=0:abort_on_error=1",
             os.path.join(drv.BUILD, "execdrv"), "oneshot", self.scen, self.res]
-        cmd = ["unshare", "-m", "--propagation", "private", "sh", "-c", 'mount --bind "$1" "$2" && shift 2 && exec "$@"', "sh",
+        import shlex
+        extra = "".join("mount --bind %s %s && " % (shlex.quote(a), shlex.quote(b)) for a, b in BINDS)
+        cmd = ["unshare", "-m", "--propagation", "private", "sh", "-c", 'mount --bind "$1" "$2" && shift 2 && ' + extra + 'exec "$@"', "sh",
                self.etc, self.run.etc] + st
         try:
             p = subprocess.run(cmd, env={"PATH": "/usr/bin:/bin"}, stdin=subprocess.DEVNULL, stdout=subprocess.DEVNULL,
